@@ -179,19 +179,19 @@ type Diag struct {
 func ToDiag(fset *token.FileSet, checker string, w linter.Warning) Diag {
 	d := Diag{Checker: checker, Text: w.Text}
 	if w.Pos.IsValid() {
-		pos := fset.Position(w.Pos)
+		pos := fset.PositionFor(w.Pos, false) // unadjusted: //line directives must not matter
 		d.File, d.Line, d.Col, d.Offset = pos.Filename, pos.Line, pos.Column, pos.Offset
 	}
 	if w.HasQuickFix() {
 		d.HasFix = true
 		d.Fix = string(w.Suggestion.Replacement)
 		if w.Suggestion.From.IsValid() {
-			d.FixFrom = fset.Position(w.Suggestion.From).Offset
+			d.FixFrom = fset.PositionFor(w.Suggestion.From, false).Offset
 		} else {
 			d.FixFrom = -1
 		}
 		if w.Suggestion.To.IsValid() {
-			d.FixTo = fset.Position(w.Suggestion.To).Offset
+			d.FixTo = fset.PositionFor(w.Suggestion.To, false).Offset
 		} else {
 			d.FixTo = -1
 		}
